@@ -652,8 +652,19 @@ func (e *Engine) raceCheck(st *State, in ssa.Instruction) {
 				if x.thread == y.thread || (!x.write && !y.write) {
 					continue
 				}
-				if x.locks != "" && x.locks == y.locks {
-					continue // same lock set held (coarse: identical sets)
+				if x.atomic && y.atomic {
+					continue // two sync/atomic operations never race with each other
+				}
+				common := false
+				for _, a := range x.lockID {
+					for _, b := range y.lockID {
+						if a == b {
+							common = true
+						}
+					}
+				}
+				if common {
+					continue // a lock held at both accesses
 				}
 				key := fmt.Sprint(o.id)
 				if reported[key] {
